@@ -242,3 +242,85 @@ Example C16_nontrivial_sum :
          (call_steps 0 ++ [U 1; U 1; U 1] ++ call_steps 0 ++ call_steps 0))
   = Some [12].
 Proof. vm_compute. reflexivity. Qed.
+
+(* ------------------------------------------------------------------ oracle soundness *)
+(* The run-time check evaluates [c16_ok_sys] / [c16_ok_stress] (Model/SysInterval.v) on what it saw
+   of the Go recorders.  They accept the observation of EVERY complete schedule of the model.
+   Definitions (Proofs/OracleC16.v):
+   [quiescent c s]   no goroutine - user or flusher; the ticker event is not one - has a step in s:
+                     the schedule that led to s is complete;
+   [closed_log s]    the last call that acquired the mutex was EndTest or Reset;
+   [n_flushers l], [n_resets l], [incs_of p]: functions of a call list (flushers started by the
+                     serial execution of the lock order l; EndTest/Reset calls; increments);
+   [all_counted false false p]: in the order p (oldest first) no increment is dropped: each is followed
+                     by an EndTest that finds the point stamped, none by a Reset or by the end;
+   [obs_of (Some s)] is Model/SysInterval.v's own reading of a state (its o_late is the constant 0:
+                     the second conjuncts below say that in s no flusher event is possible at all);
+   [stress_obs_of c s] is the record [model_obs_stress] builds (so_late, so_overlap constant 0).
+   The proofs go through "the outcome of any interleaving is the outcome of the serial execution in
+   lock order": flushers started, canceler stored, counters persisted by user goroutines are
+   functions of [applied_log], and read oldest first the last one is [spec_end_samples]. *)
+From FV.Proofs Require Import OracleC16.
+
+(* systematic runs: one user goroutine executing the harness's program; ANY interleaving with the
+   flushers and the ticker, up to quiescence.  (The driver passes cycles = 2.) *)
+Theorem C16_oracle_sys_sound : forall use_reset a b a2 b2 sched s,
+  run (sut true) (init [sys_prog use_reset a b a2 b2]) sched = Some s -> quiescent (sut true) s ->
+  c16_ok_sys 2 (sys_prog use_reset a b a2 b2) (obs_of (Some s)) = true /\
+  (forall f, step (sut true) s (Tick f) = None /\ step (sut true) s (F f) = None).
+Proof. exact (c16_sys_prog_oracle_sound (sut true) C16_source_flusher_unlocks eq_refl). Qed.
+Print Assumptions C16_oracle_sys_sound.
+
+(* the same for EVERY program of one user goroutine that ends with EndTest or Reset *)
+Theorem C16_oracle_sys_sound_any_program : forall prog sched s,
+  run (sut true) (init [prog]) sched = Some s -> quiescent (sut true) s ->
+  (exists p cl, prog = p ++ [cl] /\ is_resetb cl = true) ->
+  c16_ok_sys (n_flushers (rev prog)) prog (obs_of (Some s)) = true /\
+  (forall f, step (sut true) s (Tick f) = None /\ step (sut true) s (F f) = None).
+Proof. exact (fun prog sched s => c16_sys_oracle_sound (sut true) C16_source_flusher_unlocks prog sched s eq_refl). Qed.
+Print Assumptions C16_oracle_sys_sound_any_program.
+
+(* stress runs, interval recorders: any number of goroutines, any programs, any complete schedule
+   whose lock order ends with an EndTest/Reset and drops no increment (the harness arranges both:
+   goroutine 0 stamps every cycle itself, and the incrementing goroutines are joined before the
+   closing iteration and EndTest).  incs = the increments of all programs, cycles = their
+   EndTest/Reset calls, flushers = the flusher goroutines started. *)
+Theorem C16_oracle_stress_sound : forall progs sched s,
+  run (sut true) (init progs) sched = Some s -> quiescent (sut true) s ->
+  closed_log s -> all_counted false false (rev (lock_log s)) = true ->
+  c16_ok_stress (incs_of (List.concat progs)) (n_resets (List.concat progs)) (List.length (flushers s))
+                (stress_obs_of (sut true) s) = true /\
+  (forall f, step (sut true) s (Tick f) = None /\ step (sut true) s (F f) = None).
+Proof. exact (fun progs sched s => c16_stress_oracle_sound (sut true) C16_source_flusher_unlocks progs sched s eq_refl). Qed.
+Print Assumptions C16_oracle_stress_sound.
+
+(* stress runs, synchronized wrapper over the raw recorder (no flusher): the lock order ends with
+   the only EndTest, the point being stamped by then *)
+Theorem C16_oracle_stress_sync_sound : forall progs sched s l,
+  run (sut false) (init progs) sched = Some s -> quiescent (sut false) s ->
+  lock_log s = EndTest :: l -> n_resets l = O -> cycle_stamped l = true ->
+  c16_ok_stress (incs_of (List.concat progs)) (n_resets (List.concat progs)) (List.length (flushers s))
+                (stress_obs_of (sut false) s) = true.
+Proof. exact (fun progs sched s l => c16_stress_sync_oracle_sound (sut false) C16_source_flusher_unlocks progs sched s l eq_refl). Qed.
+Print Assumptions C16_oracle_stress_sync_sound.
+
+(* the facts behind them, for every complete schedule of any programs: the lock order is a
+   permutation of the programs' calls, all calls have returned, the mutex is free, and - flusher
+   variant - flushers started / counters persisted by user goroutines are those of the serial
+   execution in lock order *)
+Theorem C16_serializable : forall with_fl progs sched s,
+  run (sut with_fl) (init progs) sched = Some s -> quiescent (sut with_fl) s ->
+  Permutation.Permutation (lock_log s) (List.concat progs) /\ all_returnedb s = true /\ mu s = None /\
+  map s_ops (filter by_user (persisted (rc s))) = user_log with_fl (lock_log s) /\
+  (with_fl = true -> List.length (flushers s) = n_flushers (lock_log s)) /\
+  (forall p, rev (user_log true (rev p)) = spec_end_samples false 0 p).
+Proof. exact (fun w => c16_serializable (sut w) C16_source_flusher_unlocks). Qed.
+Print Assumptions C16_serializable.
+
+(* non-vacuity of C16_oracle_stress_sound's hypotheses: two goroutines *)
+Example C16_oracle_stress_example :
+  exists s, run (sut true) (init ex_progs) ex_sched = Some s /\ quiescent (sut true) s /\ closed_log s /\
+            all_counted false false (rev (lock_log s)) = true /\
+            incs_of (List.concat ex_progs) = [5; 7] /\ map s_ops (persisted (rc s)) = [12; 12] /\
+            List.length (flushers s) = 1%nat.
+Proof. exact (c16_stress_example (sut true) C16_source_flusher_unlocks eq_refl). Qed.
